@@ -248,6 +248,14 @@ func (s *Sys) observe() obs {
 	for _, m := range []string{authtypes.FeeCollectorName, "bonded_tokens_pool", "not_bonded_tokens_pool", "gov", "distribution"} {
 		o.bal[m] = s.c.App.BankKeeper.GetBalance(ctx, authtypes.NewModuleAddress(m), "stake").Amount.String()
 	}
+	// the fee collector is swept into the distribution account by every BeginBlock: only their sum is a property of a transaction
+	{
+		a, _ := new(big.Int).SetString(o.bal[authtypes.FeeCollectorName], 10)
+		b, _ := new(big.Int).SetString(o.bal["distribution"], 10)
+		delete(o.bal, authtypes.FeeCollectorName)
+		delete(o.bal, "distribution")
+		o.bal["collector+distribution"] = new(big.Int).Add(a, b).String()
+	}
 	o.bal["depositor"] = s.c.App.BankKeeper.GetBalance(ctx, s.c.Accounts["u1"].Acc, "stake").Amount.String()
 	o.supply = s.c.App.BankKeeper.GetSupply(ctx, "stake").Amount.String()
 	o.slot = s.c.App.EvmKeeper.GetState(ctx, s.fwd, common.Hash{}).Hex()
@@ -304,7 +312,7 @@ func (s *Sys) Apply(op string) (out, class string, viols []bfs.Viol) {
 		num := func(x string) *big.Int { v, _ := new(big.Int).SetString(x, 10); return v }
 		delta := func(k string) *big.Int { return new(big.Int).Sub(num(after.bal[k]), num(before.bal[k])) }
 		lost := new(big.Int).Neg(delta("gov"))
-		burned := new(big.Int).Add(delta(authtypes.FeeCollectorName), delta("distribution"))
+		burned := delta("collector+distribution")
 		refunded := delta("depositor")
 		if lost.Sign() > 0 {
 			class = "advance past the voting period (deposit burned)"
@@ -359,10 +367,26 @@ func (s *Sys) Apply(op string) (out, class string, viols []bfs.Viol) {
 		topic, evData := s.eventFor(segs[0], user.Eth)
 		tx = s.c.EthTx(user, &s.emt, nil, append(topic.Bytes(), evData...))
 	}
+	inVoting := func() bool {
+		p, ok := s.c.App.GovKeeper.GetProposal(s.c.ReadCtx(), s.pid)
+		return ok && p.Status == govtypes.StatusVotingPeriod
+	}
+	votingBefore := inVoting()
 	res := s.w.Block(s.c, tx)[0]
 	after := s.observe()
 	if before.supply != after.supply {
 		add("total-supply-changed", fmt.Sprintf("%s: %s -> %s", op, before.supply, after.supply))
+	}
+	if votingBefore && !inVoting() {
+		// the voting period ended in this block's EndBlock: the tally removed the votes and the deposit was refunded or
+		// burned — effects of the block, not of the transaction; the comparisons below look at the rest
+		s.votes = map[string]string{}
+		for _, o := range []*obs{&before, &after} {
+			o.votes = map[string]string{}
+			for _, k := range []string{"gov", "collector+distribution", "depositor"} {
+				delete(o.bal, k)
+			}
+		}
 	}
 	action := f[2]
 	if path == "fake" {
